@@ -14,7 +14,7 @@ CHECKS = {
    text="Theorems over all expression trees, all contexts and every mixture of the single-line and hanging layout paths (relation R): the semantic tree (grouping, multi-value truncation) is unchanged, "
         "canonical form is preserved and canonical trees re-parse to themselves (Pratt parser proved), no unary minus meets a minus sign. The rule itself is translated from /repo's Rust by rs2v on every run and the theorems are re-proved against it; "
         "the context flow is tied by deciding R-membership of every observed (input, output) tree pair over all depth-2 trees x 13 contexts x 4 widths.",
-   design="5/C05", technique="Coq proof over a relation covering all layouts + kernel regenerated from source (rs2v) + exhaustive tree correspondence",
+   design="5/C05", technique="Coq proof over a relation covering all layouts + kernels regenerated from source (rs2v: check_excess_parentheses, parenthesise_double_minus) + exhaustive tree correspondence",
    note=BASE_NOTE + "rs2v (syn-based translator, ~250 lines) is trusted; the context flow (which context each operand receives) is hand-modelled and tied by correspondence."),
  "C18": dict(
    text="Theorems over all valid edit scripts (the script `similar` picks is an arbitrary oracle): the JSON mismatches applied as line-range replacements rebuild the formatted file; a unified diff showing every changed line and any subset "
@@ -71,7 +71,7 @@ CHECKS = {
         "on every layout path no unary minus meets a minus sign and printed expressions re-parse to themselves. Not proved: acceptance by full_moon's statement parser. Validation: every output of generated programs x configurations (x ranges, sort) "
         "re-parsed by full_moon; the Coq lexer model compared with full_moon's tokenizer on every input and output. "
         "L0 (Fmt0.v): a whole-formatter model on a fragment of Lua 5.1 (every statement kind but goto/labels; expressions without function bodies and long strings; escapes, all quote styles, statement-level line comments and empty lines; call sugar; tables written over several lines (nested indentation inside expressions) with comments and empty lines between their fields; the whitespace, quote, call_parentheses, space_after_function_names and collapse_simple_statement options), tied to the binary byte for byte on every run (svh l0 x drv_l0). On L0: the text format0 prints lexes back to exactly the printed tokens (format0_relexes, through the proven adjacent-token checker LexAdj.adj_relex); the semicolon rule regenerated from block.rs keeps the semicolon wherever the next statement would be absorbed.",
-   design="5/C01", technique="Coq proof (lexer round trip, expression side conditions) + re-parse of every output + lexer-model differential + L0 whole-formatter model (byte-for-byte tie) + regenerated semicolon rule",
+   design="5/C01", technique="Coq proof (lexer round trip, expression side conditions) + re-parse of every output + lexer-model differential + L0 whole-formatter model (byte-for-byte tie) + regenerated semicolon rule and `- -` guard (rs2v)",
    note=BASE_NOTE + "Seed-driven exploration only where established clean (comments at statement boundaries); a fixed regression set with comments anywhere has its failures listed per input (known finding F-C01-baseline)."),
  "C02": dict(
    text="Partial. Theorems: the parenthesis rule preserves the semantic tree on every layout path and its output re-parses to it; string and number rewriting preserve denotations; the erasure ignores exactly whitespace, comments, parentheses, semicolons, commas. "
@@ -88,9 +88,12 @@ CHECKS = {
  "C06": dict(
    text="Partial. Theorems: every kernel that rewrites text or reorders is idempotent (quote rewrite, quote choice, newline conversion, comment trimming, require-group sorting). Whole-program idempotence is validated on a fixed regression set only "
         "(second pass byte-compared); its known non-idempotent inputs are listed per input. "
-        "L0 (Fmt0.v): a whole-formatter model on a fragment of Lua 5.1 (every statement kind but goto/labels; expressions without function bodies and long strings; escapes, all quote styles, statement-level line comments and empty lines; call sugar; tables written over several lines (nested indentation inside expressions) with comments and empty lines between their fields; the whitespace, quote, call_parentheses, space_after_function_names and collapse_simple_statement options), tied to the binary byte for byte on every run (svh l0 x drv_l0). On L0: normalisation is not idempotent (refutation theorem with witness `local x = (- -f())`, replayed on the binary: known finding).",
-   design="5/C06", technique="Coq proof of kernel idempotence + second-pass comparison on a fixed regression set with per-input baseline + L0 whole-formatter model (byte-for-byte tie, refutation witness replayed)",
-   note=BASE_NOTE + "No region is established clean for whole-program idempotence (1.5% of generated programs differ even at unbounded width): known finding F-C06-baseline."),
+        "L0 (Fmt0.v): a whole-formatter model on a fragment of Lua 5.1 (every statement kind but goto/labels; expressions without function bodies and long strings; escapes, all quote styles, statement-level line comments and empty lines; call sugar; tables written over several lines (nested indentation inside expressions) with comments and empty lines between their fields; the whitespace, quote, call_parentheses, space_after_function_names and collapse_simple_statement options), tied to the binary byte for byte on every run (svh l0 x drv_l0). On L0: normalisation is not idempotent (refutation theorem with witness `local x = (- -f())`, replayed on the binary: known finding), and it IS idempotent - both passes, so formatting the written tree again gives the same bytes - "
+        "for every program in which no unary minus stands, through parentheses, in front of something that starts with a unary minus (Fmt0Idem.norm0_idempotent; the premise is a boolean predicate, extracted, counted per record); "
+        "the tie compares the library's SECOND pass byte for byte with the model's on every record, so on the fragment a second-pass difference the model does not predict is a violation under any seed. "
+        "Regenerated from the source on every run and proved against the model: the `- -` guard (parenthesise_double_minus) and the condition rule (remove_condition_parentheses: one pass leaves no removable layer).",
+   design="5/C06", technique="Coq proof of kernel idempotence and of whole-program idempotence on the L0 model under a stated premise (refuted without it) + rs2v-regenerated kernels (guard, condition rule) + L0 byte-for-byte tie of first AND second pass + second-pass comparison on a fixed regression set with per-input baseline",
+   note=BASE_NOTE + "Outside the L0 fragment no region is established clean for whole-program idempotence (1.5% of generated programs differ even at unbounded width): known finding F-C06-baseline."),
  "C10": dict(
    text="Partial. Theorems: the comment gate emits only the configured line ending inside block comments, trims line comments idempotently, the conversion is idempotent. Validation: the whitespace discipline (every newline in the configured form, no other CR, "
         "indentation of the configured kind, one final line ending) evaluated by the extracted checker on every output of generated programs (LF, CRLF, mixed) x configurations; both regions clean. "
